@@ -34,7 +34,7 @@ theorem assemble_congr (subs : List Ex) (p : Pt) (st st' : Nat → List Cell)
   | bin op l r ihl ihr => simp only [Ex.assemble]; exact node _ _ _ (by rw [ihl, ihr])
   | ifE c w ih => simp only [Ex.assemble]; exact node _ _ _ (by rw [ih])
   | bounded w lo hi ih => simp only [Ex.assemble]; exact node _ _ _ ih
-  | unary f w ih => simpa only [Ex.assemble] using ih
+  | unary f w ih => simp only [Ex.assemble]; exact node _ _ _ ih
   | shift w off _ => rfl
   | ptile id v pe n _ _ => rfl
 
